@@ -14,6 +14,7 @@ func init() { registerProp("C07", runC07) }
 
 func runC07(w *World) {
 	w.drawWeights()
+	w.drawNet(w.knob)
 	w.weights[akFault] = 0
 	w.cut = cutMode(w.knob("cut", 2))
 	n := w.addNode("n1", "10.0.0.1", 9851)
